@@ -151,16 +151,17 @@ P("C08", "proof", "Lean 4 theorems (model push = documented rule table, byte-exa
   "prefix); under a verbatim prefix the result is the re-rendering of a's components followed by b's with `.` dropped, "
   "`..` cancelling only a preceding normal component and a root resetting to the prefix (win_push_verbatim, "
   "verbatimFold_no_cur_added); an empty b changes nothing (win_push_empty); sequences of pushes follow the rules "
-  "(pushes_follow_rules). Component clause: for a prefix-free non-empty base and for a base with a complete non-verbatim prefix, joining a non-empty relative prefix-free argument yields the base's components followed by the argument's minus a leading `.` — directly after a bare `X:` the argument's components unchanged, after a bare device-namespace / UNC prefix the implicit root first (C16b.win_push_comps_pf, Win.win_push_comps_prefixed). For a base with a complete verbatim prefix (followed by nothing or a separator) the rendered result re-parses to exactly the documented scan of the base's and the argument's components, root written out, same prefix (C08c.win_push_comps_verbatim via Win.render_parse); the scan never removes prefix or root and adds no `.` (fold_keeps_prefix_root, verbatimFold_no_cur_added).",
-  "Partial: the component-level clause (the result's components are a's followed by b's) is not proved for Windows; it "
-  "is false at known finding K3 (win_push_K3_witness) and is decided by the oracle with K3 set aside by a narrow class "
-  "predicate. That the rendering under a verbatim prefix re-parses to the folded components is likewise by oracle. "
+  "(pushes_follow_rules). Component clause: for a prefix-free non-empty base and for a base with a complete non-verbatim prefix, joining a non-empty relative prefix-free argument yields the base's components followed by the argument's minus a leading `.` — directly after a bare `X:` the argument's components unchanged, after a bare device-namespace / UNC prefix the implicit root first (C16b.win_push_comps_pf, Win.win_push_comps_prefixed). For a base with a complete verbatim prefix (followed by nothing or a separator) the rendered result re-parses to exactly the documented scan of the base's and the argument's components, root written out, same prefix (C08c.win_push_comps_verbatim via Win.render_parse); the scan never removes prefix or root and adds no `.` (fold_keeps_prefix_root, verbatimFold_no_cur_added); the same for ANY prefix-free argument, rooted ones included — a root resets the buffer to the prefix followed by the root (C08d.win_push_comps_verbatim_any, win_push_rooted_onto_verbatim).",
+  "Partial: the component-level clause is false at known finding K3 (win_push_K3_witness) and not proved for bases with "
+  "an INCOMPLETE prefix (no share, blank or `UNC` verbatim name) or a verbatim-disk prefix directly followed by a name; "
+  "those are decided by the oracle, K3 set aside by a narrow class predicate. "
   "Model=code by differential testing; the harness has an independent Rust version of the rule table.",
   theorems=["TP.C08.win_push_bytes", "TP.C08.win_push_verbatim", "TP.C08.verbatimFold_no_cur_added", "TP.C08.win_push_empty",
             "TP.C08.pushes_follow_rules", "TP.C08.win_push_K3_witness", "TP.C08.wPrefix_eq", "TP.C08.wIsOnlyDisk_eq", "TP.C08.hasRoot_no_prefix",
             "TP.Win.win_push_comps_prefixed", "TP.C16b.win_push_comps_pf", "TP.C12c.push_name",
-            "TP.C08c.win_push_comps_verbatim", "TP.C08c.fold_keeps_prefix_root", "TP.C08c.fold_vshape", "TP.Win.render_parse"],
-  modules=["TypedPathVerif.Lemmas.WinAppend", "TypedPathVerif.Props.C12c", "TypedPathVerif.Props.C08c", "TypedPathVerif.Lemmas.WinVerbatim"],
+            "TP.C08c.win_push_comps_verbatim", "TP.C08c.fold_keeps_prefix_root", "TP.C08c.fold_vshape", "TP.Win.render_parse",
+            "TP.C08d.win_push_comps_verbatim_any", "TP.C08d.win_push_rooted_onto_verbatim", "TP.C08d.verbatimFold_append"],
+  modules=["TypedPathVerif.Lemmas.WinAppend", "TypedPathVerif.Props.C12c", "TypedPathVerif.Props.C08c", "TypedPathVerif.Lemmas.WinVerbatim", "TypedPathVerif.Props.C08d"],
   rule=NONTRIV + "bases x arguments; non-trivial = non-empty argument", design_ref="§5 C08")
 
 P("C09", "proof", "Lean 4 theorems (law B of the back parser, byte-prefix lemma, law R incl. stability of every complete Windows prefix under truncation, ancestors chain with fuel adequacy) + model/code correspondence",
